@@ -1,11 +1,11 @@
 (* Extraction of the executable models of C07 (ExtrOcamlBasic only, no Extract Constant). *)
 From Coq Require Import ZArith List Extraction ExtrOcamlBasic.
-From C07 Require TableSpec MultiHash IndexModel Gen_Segments SelectionModel TableOps ProjectModel.
+From C07 Require TableSpec MultiHash IndexModel Gen_Segments SelectionModel TableOps ProjectModel GroupModel.
 Separate Extraction
   TableSpec.step TableSpec.empty_table TableSpec.select TableSpec.find_by_key TableSpec.project
   TableSpec.sorted_projection TableSpec.lower_bound_count TableSpec.upper_bound_count TableSpec.natlist_eqb
   TableOps.t_insert TableOps.t_update_row TableOps.t_update_col TableOps.t_remove TableOps.t_filter TableOps.t_clear TableSpec.evalp
-  ProjectModel.project_loop
+  ProjectModel.project_loop GroupModel.group_runs GroupModel.group_model
   SelectionModel.ub_bisect SelectionModel.lower_pred SelectionModel.upper_pred
   Gen_Segments.GetItemCount Gen_Segments.GetSegItemIndexes
   MultiHash.pv_add MultiHash.accept_remove MultiHash.filter_group
